@@ -493,6 +493,18 @@ def build(L):
       if u['jac']:
         c['jac'] = lambda s, w=w: w.copy()
       cons.append(c)
+    if L.get('ucon_stack') and L['ucons']:
+      # the same user constraints handed over as ONE vector-valued constraint per type (what scipy accepts): a rolling-window cap written
+      # as caps - W.s >= 0.  The model keeps one scalar constraint per component.
+      cons = []
+      for eq in (True, False):
+        us = [u for u in L['ucons'] if bool(u['eq']) == eq]
+        if us:
+          W, K = np.array([fl(u['w']) for u in us]), np.array([float(u['k']) for u in us])
+          c = {'type': 'eq' if eq else 'ineq', 'fun': (lambda s, W=W, K=K: W.dot(np.array(s).reshape(-1)) + K)}
+          if all(u['jac'] for u in us):
+            c['jac'] = lambda s, W=W: W.copy()
+          cons.append(c)
     return call(dk.ADevice, i, n, bounds, cb, f=build_fn(L['f']), constraints=cons)
   raise AssertionError(cls)
 
@@ -623,7 +635,7 @@ def leaf_from_json(J):
   if L.get('cbounds') is not None:
     L['cbounds'] = [(F(a), F(b), int(s), int(e)) for a, b, s, e in L['cbounds']]
   for k, v in list(L.items()):
-    if k in ('n', 'cls', 'id', 'cb_kind', 'bounds', 'cbounds', 'f', 'ucons', 'rate_clip', 'post_set', 'rebound', 'warm', 'omit', 'recb', 'twice', 'nd', 'intb', 'pwarm', 'ph_first'):
+    if k in ('n', 'cls', 'id', 'cb_kind', 'bounds', 'cbounds', 'f', 'ucons', 'rate_clip', 'post_set', 'rebound', 'warm', 'omit', 'recb', 'twice', 'nd', 'intb', 'pwarm', 'ph_first', 'ucon_stack'):
       continue
     if isinstance(v, int) and not isinstance(v, bool):
       L[k] = F(v)
